@@ -7,6 +7,7 @@ Fixpoint gv_same_fields (a b : gv) {struct a} : bool :=
   match a, b with
   | GPtr _, GPtr _ => true                       (* same pointer; the pointee is shared *)
   | GMapV _, GMapV _ => true                     (* same map; its contents are shared *)
+  | GCfgV _, GCfgV _ => true                     (* same *Config; the pointed-to config is shared *)
   | GSlice l1, GSlice l2 => Nat.eqb (List.length l1) (List.length l2)    (* same slice header; elements are shared *)
   | GArr l1, GArr l2 | GStructV l1, GStructV l2 =>
     (fix go (l1 l2 : list gv) : bool :=
@@ -53,6 +54,8 @@ Definition prop_c13 (c : case) : bool :=
   | CUnpack o t old cfg (UErr _ _) after => gv_same_fields old after
   | CUnpack o t old cfg (UOk v) _ => frame_ok o t cfg old v
   | CUnpack _ _ _ _ UPanic _ => false
+  | CHooked _ _ old (UErr _ _) after => gv_same_fields old after
+  | CHooked _ _ _ UPanic _ => false
   | _ => true
   end.
 
